@@ -23,56 +23,56 @@ var asmCommon = []string{
 
 func init() {
 	prop("C01", "accepted QoS>=1 publishes are retransmitted until acknowledged", "§4 C01",
-		[]string{"ORD-1", "ORD-2", "ORD-3", "ORD-5", "ORD-13", "TOK-1", "TOK-5", "OWN-3", "OWN-4", "OWN-5", "OWN-8", "OWN-9", "ERR-8"},
+		[]string{"ORD-1", "ORD-2", "ORD-3", "ORD-5", "ORD-13", "TOK-1", "TOK-5", "OWN-3", "OWN-4", "OWN-5", "OWN-8", "OWN-9", "ERR-8", "TOK-15", "COD-11"},
 		"path-sensitive must-pass-through and typestate over SSA; who-may rules",
 		lvlCommon, noteCommon,
 		"Decides on every path: accept order (capacity test → Save=nil → enqueue → acceptN++; error ⇒ nothing enqueued/counted/written; first write only without backlog), resend (ascending from the acknowledgement counter, Load=nil and found → write=nil per iteration, DUP condition, both resends nil before the connection is published, under both sequence tokens and the write token), acknowledgement handlers (Delete/Save=nil before counter++ before close/forward; error returns carry no effect), every stream/handler/Persistence error in readSlices resets the connection; token balance and lock order; who may write the counters, delete records and close exchanges. Third round: No error of the stream, a handler, the acknowledgement write, resend or the Persistence is stepped over (the next step happens with the error nil, is its return, or the reset); submitN becomes exactly seqNo+1; known functions do not inherit the ownership of their callers; Client.Config is read only. Not decided: that the broker is eventually reached; payload bytes on the wire.",
 		asmCommon)
 	prop("C02", "restart resumes exactly the unacknowledged set", "§4 C02",
-		[]string{"ADP-1", "ADP-4", "ADP-7", "ADP-8", "COD-1", "COD-8", "COD-9", "ORD-1", "ORD-3", "ORD-4", "OWN-8", "ADP-9", "COD-10", "ERR-8"},
+		[]string{"ADP-1", "ADP-4", "ADP-7", "ADP-8", "COD-1", "COD-8", "COD-9", "ORD-1", "ORD-3", "ORD-4", "OWN-8", "ADP-9", "COD-10", "ERR-8", "COD-11"},
 		"path rules and sibling/table comparison on AdoptSession, cleanSequence and the record codec",
 		lvlCommon, noteCommon,
 		"Decides: the adopted client continues the storage sequence (seqNo seeded from the decoded maximum before newClient); counters and placeholders are computed from cleanSequence results on every path; the three wrap-around adjustments add publishIDMask+1 and compare with the start of their range; cleanSequence restarts at the first pair after a dropped prefix; record encode/decode tables agree; AdoptSession classifies every key space the Save sites use; PUBREL is saved before it is counted and is kept for retry only after a durable Save. Third round: The counters AdoptSession installs are first/last of the list that the guards of its appends identify (Acked, acceptN, Completed, Received, submitN; in that order, and whenever placeholders are queued for a non-empty list); the PUBREL→PUBLISH junction and the scan of cleanSequence are decided on twelve representative identifier pairs; the storage sequence seed is a running maximum; the client identifier record is neither deleted nor filed; a failed List/Load is never taken for a damaged record; List's filters hold on every path to an append. Not decided: equality of the recovered set with accepted-minus-acknowledged for arbitrary histories; counter arithmetic values.",
 		asmCommon)
 	prop("C03", "exactly-once publish", "§4 C03",
-		[]string{"ORD-3", "ORD-4", "ORD-2", "ORD-1", "OWN-4", "OWN-9", "COD-1", "COD-12", "COD-3", "ADP-1", "ADP-8", "ADP-9"},
+		[]string{"ORD-3", "ORD-4", "ORD-2", "ORD-1", "OWN-4", "OWN-9", "COD-1", "COD-12", "COD-3", "ADP-1", "ADP-8", "ADP-9", "TOK-15"},
 		"path-sensitive must-pass-through; constant evaluation of identifier spaces; guard dominance",
 		lvlCommon, noteCommon,
 		"Decides: onPUBREC saves PUBREL (nil) before Received++ before the write, onPUBCOMP deletes (nil) before Completed++ before closing the exchange, in-order and depth guards dominate both; only submitPersisted and onPUBREC store under an exactly-once key; resend transmits what is stored with DUP only on PUBLISH; queue capacity ≤ identifier space and the ErrMax test dominates Save, so no identifier is reused before PUBCOMP; storage order survives adoption. Third round: The exactly-once accept count derives from the last PUBLISH key, or the last PUBREL key when no PUBLISH is pending, plus one (ADP-9); Completed/Received are installed first. Not decided: the broker-side consequence (forwards exactly once).",
 		asmCommon)
 	prop("C04", "exactly-once reception", "§4 C04",
-		[]string{"ORD-4", "ORD-6", "COD-11", "OWN-3", "ORD-11"},
+		[]string{"ORD-4", "ORD-6", "COD-11", "OWN-3", "ORD-11", "ORD-7"},
 		"path-sensitive must-pass-through over onPUBLISH, readSlices, onPUBREL; key-expression agreement",
 		lvlCommon, noteCommon,
 		"Decides: a QoS 2 delivery lies behind a marker Load that returned (nil,nil); every delivered QoS 1/2 message leaves the matching acknowledgement with the identifier parsed in the same call; a recognised duplicate is answered with PUBREC and not delivered; no error return leaves an acknowledgement queued (except the retried PUBREC of a duplicate); the flush saves the marker (nil) before PUBREC and truncates only behind a nil write; the read loop continues only with pendingAck empty; onPUBREL deletes (nil) before PUBCOMP regardless of the marker's existence; the three marker key expressions agree; toOffline keeps pendingAck. Third round: A flush without marker Save lies behind pendingAck[0]>>4 != typePUBREC; errDupe is never served and never returned to the application; the PUBREC for a duplicate carries the parsed identifier; a parked BigMessage is flushed and cleared at entry. Not decided: once-per-cycle delivery over histories with restarts (needs marker contents).",
 		asmCommon)
 	prop("C05", "acceptance order, DUP only on re-delivery", "§4 C05",
-		[]string{"TOK-1", "TOK-5", "ORD-1", "ORD-2", "OWN-6", "OWN-2", "OWN-9", "COD-1", "COD-8", "ERR-8"},
+		[]string{"TOK-1", "TOK-5", "ORD-1", "ORD-2", "OWN-6", "OWN-2", "OWN-9", "COD-1", "COD-8", "ERR-8", "TOK-15"},
 		"token typestate and lock-order graph; must-pass-through; who-may rules",
 		lvlCommon, noteCommon,
 		"Decides: the sequence token is held across Save, enqueue and first write on every path (released only by the deferred unlock); sequence tokens are acquired before the write token in submitPersisted and connect (acyclic order graph); a backlog forbids an overtaking write; resend ascends from the oldest unacknowledged with DUP iff seqNo<submitN and PUBLISH; nobody else sets DUP or writes to the wire. Third round: submitN becomes exactly seqNo+1 behind a nil write; resend and the accept path examine every error. Not decided: observed wire order under real schedules (follows from the above only given Go's channel semantics).",
 		asmCommon)
 	prop("C06", "inbound bytes exact under any fragmentation", "§4 C06",
-		[]string{"ORD-11", "ORD-12", "ORD-13", "ORD-14", "ORD-6", "COD-4", "ERR-8"},
+		[]string{"ORD-11", "ORD-12", "ORD-13", "ORD-14", "ORD-6", "COD-4", "ERR-8", "ORD-4", "ORD-7"},
 		"typestate of the peeked packet over all paths of readSlices; argument-shape rule for unchecked Discard; loop-carried-remainder rule",
 		"A narrow structural claim (level 'other'): each peeked packet is skipped exactly once and never read stale, a parked BigMessage is served or cleared on every path, every error-ignoring Discard is provably within the buffer, and discard's retry resumes with the remainder. Byte equality of topic/payload per fragmentation is a run-time value claim and is not decided.",
 		noteCommon,
 		"Decides: typestate nil/pending/consumed of c.peek through readSlices (no double skip, peekPacket always entered with c.peek==nil so the progress baseline is not stale, back edges with c.peek==nil, delivered slices belong to a pending packet); a BigMessage set by errors.As is served, cleared or dropped by toOffline on every path; the four error-ignoring Discard calls have arguments of the form len(peek) or len(peek)−len(suffix); discard and writeTo carry the remainder around the retry edge, which lies behind count≠0 ∧ Timeout(). Not decided: byte equality of returned slices, Size arithmetic beyond the Discard form, behaviour per fragmentation.",
 		asmCommon)
 	prop("C07", "acknowledgements only after ownership", "§4 C07",
-		[]string{"ORD-4", "ORD-6", "OWN-3", "ORD-11"},
+		[]string{"ORD-4", "ORD-6", "OWN-3", "ORD-11", "TOK-5"},
 		"path-sensitive must-pass-through; who-may-write rule for pendingAck",
 		lvlCommon, noteCommon,
 		"Decides: onPUBLISH never writes to the wire while delivering and only queues the acknowledgement (matching type, identifier parsed in the same call); no error return leaves one queued for a message that was not returned; the flush dominates every peekPacket; pendingAck is truncated only behind a nil write and written only by its four owners; toOffline keeps it so that it is sent on the new connection. Third round: handshake (or any function outside the four owners) may not touch pendingAck even when all its callers are owners; a parked BigMessage is cleared unless served. Not decided: timing relative to the application's next call is implied by the flush being at function entry, not observed.",
 		asmCommon)
 	prop("C08", "whole packets only", "§4 C08",
-		[]string{"TOK-1", "TOK-2", "TOK-4", "OWN-1", "OWN-2", "ORD-13", "ORD-8", "ORD-2", "ERR-7"},
+		[]string{"TOK-1", "TOK-2", "TOK-4", "OWN-1", "OWN-2", "ORD-13", "ORD-8", "ORD-2", "ERR-7", "COD-6"},
 		"token typestate with release-value rule; who-may rules; loop-carried-remainder rule",
 		lvlCommon, noteCommon,
 		"Decides: every wire write happens in writeTo/writeBuffersTo, called only by holders of the write token (or owners of an unpublished connection); after a failed or unchecked wire call the connection is never put back into writeSem; retry loops send exactly the unsent suffix (writeTo: p[n:]; writeBuffersTo: the receiver WriteTo already consumed is never re-sliced) and only after progress and a timeout; success is returned only behind a nil I/O result; DISCONNECT is the last write before Close; the connection is published only after both resends returned nil. Third round: Disconnect, like the request methods, returns an error derived from a failed write. Not decided: the io.Writer contract of the user's net.Conn.",
 		asmCommon)
 	prop("C09", "emitted packets decode to the request; invalid input denied without trace", "§4 C09",
-		[]string{"ORD-10", "COD-5", "COD-6", "COD-7", "COD-13", "ERR-4", "COD-1"},
+		[]string{"ORD-10", "COD-5", "COD-6", "COD-7", "COD-13", "ERR-4", "COD-1", "ORD-7"},
 		"symbolic linear evaluation of size versus appended bytes per option path and loop iteration; dominance of validators; table checks",
 		lvlCommon, noteCommon,
 		"Decides: the four remaining-length encoders are structurally identical and encode exactly the value that was tested against packetMax; on every option combination and per loop iteration the remaining length equals the number of bytes appended after it (symbolic linear forms); every 16-bit length prefix is emitted for a string some validator bounds to 65,535; the CONNECT flag bits equal, on every option path, the set of optional fields emitted (Will QoS/Retain only with the Will Flag, Password only with User Name, bit 0 clear); stringCheck accepts only behind len ≤ stringMax judged at its boundary values, valid UTF-8 and a NUL search whose not-found result is told apart from position 0, topicCheck only non-empty strings that passed stringCheck; validators dominate the first side effect of every request method and constructor and no deny error is returned after one; validator sentinels are in denyErrs; identifier spaces are disjoint, non-zero and 16-bit. Not decided: full decode round-trip for all inputs, UTF-8 classification (utf8.ValidString trusted), that no valid argument is denied.",
@@ -90,13 +90,13 @@ func init() {
 		"Decides: after a slot is installed every exit received from its own callback or removed its own slot; the registry is accessed under its mutex, inserts are dominated by the window test and by a failed lookup of the same identifier; the answer goes to the channel and filters returned by the single endTx call keyed with the identifier parsed from that packet; callbacks are answered only after removal from their registry, with capacity ≥ the sends of a life cycle; toOffline and termCallbacks release all waiting requests with ErrBreak; error classes per method and quit ⇒ ErrCanceled/ErrAbandoned. Known finding F7 (Ping empties the shared slot without identity check) is reported as KNOWN-FINDING. Third round: A SUBACK return code 0x80 is counted, the count decides whether a SubscribeError is sent, and the error lists exactly the filters with code 0x80; the callback returned by endTx is used only when non-nil. Not decided: absence of starvation under real schedules.",
 		asmCommon)
 	prop("C12", "Close and Disconnect from any state", "§4 C12",
-		[]string{"TOK-1", "TOK-2", "TOK-3", "TOK-7", "TOK-8", "TOK-11", "PAN-2", "PAN-4", "ORD-7", "ORD-8", "ERR-2", "TOK-14"},
+		[]string{"TOK-1", "TOK-2", "TOK-3", "TOK-7", "TOK-8", "TOK-11", "PAN-2", "PAN-4", "ORD-7", "ORD-8", "ERR-2", "TOK-14", "ORD-11"},
 		"token typestate (closer summaries, closed-aware receives); rendezvous rule; must-pass-through",
 		lvlCommon, noteCommon,
 		"Decides: Close/Disconnect cancel the context before waiting for connSem, take connSem, take or interrupt the writer, and close both tokens exactly once while holding both (a second call sees the closed channel and touches nothing); every receive from a closable token is comma-ok or under the closer's lock; the dialAndConnect watcher and the termCallbacks goroutines have their rendezvous partner on every path; signal flips happen under the write token with the opposite signal blocked first; no method is called on a connSignal or nil connection; ReadSlices calls termCallbacks on ErrClosed, queued exchanges get ErrClosed and stay open; DISCONNECT is the last packet; not-submitted classes imply no wire call. Third round: Close and Disconnect close the connection (or know there is none) before a plain receive of the write token; the connection is handed to connSem before the retransmission round; WaitGroup.Add precedes each go statement; a blocked signal is followed by the release of the other. Not decided: 'promptly' as a time bound; goroutine-leak freedom beyond the spawned closures having exits on all paths.",
 		asmCommon)
 	prop("C13", "hostile broker input", "§4 C13",
-		[]string{"COD-2", "COD-3", "COD-4", "PAN-1", "PAN-2", "PAN-4", "ERR-6", "ORD-5", "ORD-3", "OWN-4", "ORD-13", "ORD-14", "ERR-8"},
+		[]string{"COD-2", "COD-3", "COD-4", "PAN-1", "PAN-2", "PAN-4", "ERR-6", "ORD-5", "ORD-3", "OWN-4", "ORD-13", "ORD-14", "ERR-8", "ORD-11", "ORD-7", "ORD-6"},
 		"dispatch exhaustiveness; guard dominance on entry paths; induction evaluation of the length loop; compiler bounds-check listing against a reasoned table",
 		lvlCommon, noteCommon,
 		"Decides: the head>>4 switch covers all sixteen types (eight handlers, eight sentinels wrapping errProtoReset); per handler the length, zero-identifier, identifier-space, next-in-line and queue-depth guards dominate the first effect; the remaining-length loop continues only while shift ≤ 14 (≤ 4 bytes); every bounds check the compiler could not prove matches a table row with its guard; validation failures wrap errProtoReset and every handler error resets the connection; completion and deletion happen only in the guarded in-order handlers; blocking reads follow a fresh deadline. Known finding F14 (ReadAll without deadline) is reported as KNOWN-FINDING. Third round: The length decode is evaluated exactly for shift 0…28 (four bytes read, each may end the decode, 0x7f/0x80 split); the PUBLISH length guards are exact (topic end ≤ len, len ≥ end+2); the bounds-check guards bound the indexed value itself; unproven checks in helpers introduced later are discharged by the precondition at every call. Not decided: semantics for arbitrary bytes beyond these guards (tolerated unsolicited SUBACK/PINGRESP are deliberate).",
@@ -120,13 +120,13 @@ func init() {
 		"Decides: every branch that warns also abandons what it names (corrupt record: delete+warn+continue before classification; PUBREL gap: list emptied; cleanSequence: prefix dropped and scan restarted at the first pair); every listed key is integrity checked; counters and placeholders come from cleanSequence results; capacity checks precede the placeholders and treat negative limits as default; fatal results stem only from Config, List, Load and the Max checks; wrap tests compare with the start of their range; resend needs the contiguity these establish. Third round: The Max checks compare the sum of the right lists after the last list update; the client identifier record is skipped before Delete and filing; the running maximum; the adjacency decisions on test vectors; List's filter. Not decided: which records survive a given damage pattern; a damaged client-identifier record.",
 		asmCommon)
 	prop("C17", "identifiers unique and bounded; excess gets ErrMax", "§4 C17",
-		[]string{"COD-1", "COD-12", "ORD-1", "ORD-3", "TOK-12", "ADP-5", "ADP-7", "ADP-9"},
+		[]string{"COD-1", "COD-12", "ORD-1", "ORD-3", "TOK-12", "ADP-5", "ADP-7", "ADP-9", "TOK-15"},
 		"constant evaluation; dominance and path rules",
 		lvlCommon, noteCommon,
 		"Decides: the four identifier spaces are pairwise disjoint, exclude zero and fit 16 bits; both queue capacities are clamped to ≤ publishIDMask+1 on every path of newClient; the ErrMax test dominates Save and the non-blocking enqueue, and acceptN advances exactly once per accepted message; a queue slot is released only behind a nil Delete; startTx tests the window and skips identifiers still in use, under the mutex; AdoptSession's wrap adjustments and Max checks. Third round: The effective limit is decided for nine representative …Max settings (negative and oversized give publishIDMask+1, others are kept); the accept counts AdoptSession installs (ADP-9). Not decided: uniqueness as a statement over histories (follows from bounded window + modulus only with counter arithmetic, not checked numerically).",
 		asmCommon)
 	prop("C18", "connection set-up", "§4 C18",
-		[]string{"ORD-7", "ORD-2", "TOK-1", "TOK-4", "ERR-2", "ERR-6", "ERR-8"},
+		[]string{"ORD-7", "ORD-2", "TOK-1", "TOK-4", "ERR-2", "ERR-6", "ERR-8", "TOK-5"},
 		"path-sensitive must-pass-through over connect, dialAndConnect, handshake, lockWrite",
 		lvlCommon, noteCommon,
 		"Decides: the first operation on a dialled connection is the write of newCONNREQ built from the passed Config and the client identifier from a checked Load; handshake succeeds only on paths that established both header bytes, Peek=nil, return code 0, flags ∈ {0,1} and session-present ⇒ ¬clean; CleanSession is cleared exactly when a previous connection existed, on the copy passed down; the connection reaches connSem/writeSem/readConn only after a nil dialAndConnect and, for writers, after both resends; every failure exit closes the connection and deposits connDown; lockWrite waits only on connPending, returns ErrDown only under connDown and the connection only after excluding both signals. Third round: A refused, malformed or missing CONNACK closes the connection on every path (handshake expanded in place; the abort watcher closes before it reports); handshake and dialAndConnect examine every error; the Dialer context. Not decided: CONNECT field values for every Config (structurally covered under C09).",
